@@ -186,7 +186,7 @@ func epLines(trace []Event) []string {
 				case spawned[c] && !written[c]:
 					add("callWriteFail %d 0", c)
 					panicking[c] = true
-					code := 4
+					code := 5 // eExt 0 (the models number the call-context error 4)
 					if linkCancelled {
 						code = 1
 					}
